@@ -67,6 +67,16 @@ Mix1dOK == (D = 1 /\ cls \in {"Dispersion", "HyperDiffusion", "KortewegDeVries"}
 \* every semi-linear class with an even-order-only linear part has a real symbol (ETDRK coefficients real)
 SemiRealOK == (cls \in SemiClasses \ {"KortewegDeVries"}) => PureReal(terms)
 
+\* generic family: odd-order terms are purely imaginary (norm preserving), even-order terms purely real, at every index
+ParityOK == (cls \in {"GeneralLinear", "Derivative"}) =>
+    \A tm \in terms : IF tm.w % 2 = 1 THEN QIsZero(tm.m.re) ELSE QIsZero(tm.m.im)
+\* C05: derivatives compose, (d/dx_d)^a (d/dx_d)^b = (d/dx_d)^(a+b), and the Poisson solver inverts the Laplacian of order 2 / 4
+\* on every non-constant mode: (-1/sym) * sym = -1, with sym = Sum_d (i k_d)^o never zero away from k = 0
+DerivativeOK == (cls = "Derivative") =>
+    /\ \A d \in 1..D : \A a \in 1..(MaxJ - 1) : \A b \in 1..(MaxJ - a) : CMul(IkPow(k, d, a), IkPow(k, d, b)) = IkPow(k, d, a + b)
+    /\ \A o \in {2, 4} : LET sym == SumD(D, LAMBDA d : IkPow(k, d, o))
+                         IN  IF VSq(k) = 0 THEN CIsZero(sym)
+                             ELSE ~CIsZero(sym) /\ QIsZero(sym.im) /\ CMul(CNeg(CInv(sym)), sym) = CInt(-1)
 \* ------------------------------------------------------------------ properties of the time counter
 \* n calls with dt = one call with n*dt ; a call with -dt undoes a call with dt
 RECURSIVE SumHist(_)
